@@ -1891,6 +1891,24 @@ def it_zip_longest(ex, st, args, kwargs, node):
                       elem=lambda i: VSeq([VOpt(i >= s_.length(), s_.elem(i)) for s_ in seqs], kind='tuple')))]
 
 
+def _mentions_bound(t, bound):
+    ids = set()
+    for b in bound:
+        bt = getattr(b, 't', None)
+        if bt is not None and hasattr(bt, 'get_id'):
+            ids.add(bt.get_id())
+    stack, seen = [t], set()
+    while stack:
+        x = stack.pop()
+        if x.get_id() in seen:
+            continue
+        seen.add(x.get_id())
+        if x.get_id() in ids or z3.is_var(x):
+            return True
+        stack.extend(x.children())
+    return False
+
+
 # ---- os.path (string level; POSIX separators) ---------------------------------------------------------------------
 @extern('os.path.join')
 def os_path_join(ex, st, args, kwargs, node):
@@ -1952,7 +1970,18 @@ def os_path_join(ex, st, args, kwargs, node):
         else:
             # the separator decision is kept inside the common prefix, so that two names built on the same directory
             # share a syntactically identical prefix term
-            appended = z3.Concat(z3.If(z3.Or(t == z3.StringVal(''), z3.SuffixOf(sl, t)), t, z3.Concat(t, sl)), b)
+            cond_ = z3.Or(t == z3.StringVal(''), z3.SuffixOf(sl, t))
+            if getattr(st, 'bound', ()) and _mentions_bound(t, [st.env.get(n_) for n_ in st.bound]):
+                pfx = z3.If(cond_, t, z3.Concat(t, sl))
+            else:
+                # the directory-with-separator prefix gets a NAME (one constant per directory term, defined by an
+                # equation in the path condition): names built on the same directory visibly share their prefix
+                cache = ex.__dict__.setdefault('join_prefix_cache', {})
+                if t.get_id() not in cache:
+                    cache[t.get_id()] = (z3.String(uid('dirsep')), t)
+                pfx = cache[t.get_id()][0]
+                st.assume(pfx == z3.If(cond_, t, z3.Concat(t, sl)))
+            appended = z3.Concat(pfx, b)
         if absb is True:
             t = b
         elif absb is False:
